@@ -22,7 +22,7 @@ func init() {
 		Title: "Iteration and tail recursion run in bounded interpreter space",
 		Decided: "the enabling structure, not the bound: every zero-arity inner recursive definition of builtin.go (while, until, repeat, recurse's r) has all its self-calls in tail position under the control-flow definition the optimiser implements (R-C20-tailpos); the tail-call rewrite exists and is conditioned correctly, and runs before the peephole pass that would hide its pattern (R-C04-tailrec, R-C20-passorder); " +
 			"on the opcallrec path opscope pops the old frame before pushing the new one and popscope decides whether to free from the frame being popped (R-C20-frame); accumulating loops (reduce, array construction, the hand-assembled lists) end each turn with opbacktrack paired with the loop's opfork (R-C20-backtrack, R-C01-bc, R-C02-bc); opiter leaves no fork behind after the last element (R-C20-iterlast); rangeIter holds three values and no slice (R-C20-rangeiter); stack and scopeStack agree (R-C01-stacksib).",
-		NotCovered: "the space bound itself; slot reuse arithmetic of stack.push (limit/index invariant); limit/first/inputs beyond limit's break-in-the-same-turn shape (R-C01-limitbreak); programs whose bodies pin frames with pending forks by design (until bodies using ?, first, limit); the amount the capture buffer is trimmed by (that it is trimmed: R-C20-capturetrim; YAML input from a pipe is not: known finding D44).",
+		NotCovered: "the space bound itself; slot reuse arithmetic of stack.push (limit/index invariant); limit/first/inputs beyond limit's break-in-the-same-turn shape (R-C01-limitbreak); programs whose bodies pin frames with pending forks by design (until bodies using ?, first, limit); the amount the capture buffer is trimmed by (that it is trimmed, up to a position the decoder reported: R-C20-capturetrim, R-C17-window).",
 	})
 	reg(&Rule{ID: "R-C13-pairs", Props: []string{"C13"}, Floor: 8,
 		Doc: "native codec pairs use matching halves (base64 Std family, url Query(Un)Escape with '+' fix-ups, time.UTC on both sides of gmtime/mktime, Unix()+Nanosecond epoch conversion, rune conversions)",
